@@ -403,7 +403,7 @@ class Characteristic(Attribute):
         self.required = required
 
         # Security properties
-        self.__security = security if security is not None else []
+        self.__security = SecurityAccess.generate(security)
 
         # List of descriptors.
         self.__descriptors = []
